@@ -222,6 +222,8 @@ type harness struct {
 	match   *hx.Stream
 	str     *hx.Stream
 	mstring *hx.Stream
+	cross   *hx.Stream
+	pipe    *hx.Stream
 	keys    []vaxis.Key // decoded keys, reused as events by the other streams
 	names   []vaxis.VerifKeyName
 	special []vaxis.VerifSpecialKey
@@ -375,7 +377,7 @@ func (h *harness) genDecode() {
 	h.addDecode("", nil, ansi.EOF{}, false, "other")
 
 	// CSI: every entry of specialsKeys, every field layout
-	masks := []int{0, 1, 2, 3, 5, 6, 9, 17, 33, 65, 129, 66, 130, 194, 256, 257}
+	masks := []int{0, 1, 2, 5, 6, 17, 33, 65, 130, 257}
 	if th {
 		masks = nil
 		for m := 0; m <= 257; m++ {
@@ -453,10 +455,14 @@ func (h *harness) genDecode() {
 	// 256 masks on a few keys
 	for m := 0; m <= 257; m++ {
 		for _, c := range []int{'a', ' ', 9, 57399} {
-			h.decodeShape(shape{n: c, fin: 'u', m: m, n1: 1}, "csi-u-allmasks")
+			if th || c == 'a' || m%4 == c%4 {
+				h.decodeShape(shape{n: c, fin: 'u', m: m, n1: 1}, "csi-u-allmasks")
+			}
 		}
 		h.decodeShape(shape{n: 1, fin: 'A', m: m, n1: 1}, "csi-u-allmasks")
-		h.decodeShape(shape{n: 3, fin: '~', m: m, n1: 1}, "csi-u-allmasks")
+		if th || m%2 == 0 {
+			h.decodeShape(shape{n: 3, fin: '~', m: m, n1: 1}, "csi-u-allmasks")
+		}
 	}
 	// other scripts and boundary code points
 	codes := append([]rune{}, sampleRunes...)
@@ -592,14 +598,14 @@ func (h *harness) genMatch() {
 	locks := []int{0, 64, 128, 192}
 	// events: a spread of the decoded keys plus synthetic ones
 	var evs []vaxis.Key
-	stride := len(h.keys)/300 + 1
+	stride := len(h.keys)/200 + 1
 	if th {
 		stride = len(h.keys)/6000 + 1
 	}
 	for i := 0; i < len(h.keys); i += stride {
 		evs = append(evs, h.keys[i])
 	}
-	synth := 150
+	synth := 120
 	if th {
 		synth = 4000
 	}
@@ -634,7 +640,7 @@ func (h *harness) genMatch() {
 		rel := h.relatedRunes(k)
 		for _, r := range rel {
 			for _, m := range []int{km, km ^ 1, km &^ 1, km | 1, km &^ 192, km ^ (1 << uint(1+h.pick(5))), 0} {
-				if !th && h.pick(3) != 0 {
+				if !th && h.pick(5) != 0 {
 					continue
 				}
 				h.addMatch(k, r, m, locks[h.pick(4)], locks[h.pick(4)], "related")
@@ -835,6 +841,450 @@ func (h *harness) genStrings() {
 	}
 }
 
+
+// ---------- cross-protocol stream (mirror of legacy_encs / kitty_encs in model/Keys.v) ----------
+
+type pair struct{ a, b rune }
+
+var letterSpec = []pair{{'A', vaxis.KeyUp}, {'B', vaxis.KeyDown}, {'C', vaxis.KeyRight}, {'D', vaxis.KeyLeft}, {'E', vaxis.KeyKeyPadBegin},
+	{'F', vaxis.KeyEnd}, {'H', vaxis.KeyHome}, {'P', vaxis.KeyF01}, {'Q', vaxis.KeyF02}, {'R', vaxis.KeyF03}, {'S', vaxis.KeyF04}}
+var ss3Spec = []pair{{'A', vaxis.KeyUp}, {'B', vaxis.KeyDown}, {'C', vaxis.KeyRight}, {'D', vaxis.KeyLeft},
+	{'F', vaxis.KeyEnd}, {'H', vaxis.KeyHome}, {'P', vaxis.KeyF01}, {'Q', vaxis.KeyF02}, {'R', vaxis.KeyF03}, {'S', vaxis.KeyF04}}
+var tildeSpec = []pair{{1, vaxis.KeyHome}, {2, vaxis.KeyInsert}, {3, vaxis.KeyDelete}, {4, vaxis.KeyEnd}, {5, vaxis.KeyPgUp}, {6, vaxis.KeyPgDown},
+	{7, vaxis.KeyHome}, {8, vaxis.KeyEnd}, {11, vaxis.KeyF01}, {12, vaxis.KeyF02}, {13, vaxis.KeyF03}, {14, vaxis.KeyF04}, {15, vaxis.KeyF05},
+	{17, vaxis.KeyF06}, {18, vaxis.KeyF07}, {19, vaxis.KeyF08}, {20, vaxis.KeyF09}, {21, vaxis.KeyF10}, {23, vaxis.KeyF11}, {24, vaxis.KeyF12},
+	{25, vaxis.KeyF13}, {26, vaxis.KeyF14}, {28, vaxis.KeyF15}, {29, vaxis.KeyF16}, {31, vaxis.KeyF17}, {32, vaxis.KeyF18}, {33, vaxis.KeyF19}, {34, vaxis.KeyF20}}
+var kittyF = []pair{{57376, vaxis.KeyF13}, {57377, vaxis.KeyF14}, {57378, vaxis.KeyF15}, {57379, vaxis.KeyF16}, {57380, vaxis.KeyF17},
+	{57381, vaxis.KeyF18}, {57382, vaxis.KeyF19}, {57383, vaxis.KeyF20}}
+var namedChordKeys = []rune{vaxis.KeyUp, vaxis.KeyDown, vaxis.KeyRight, vaxis.KeyLeft, vaxis.KeyKeyPadBegin, vaxis.KeyEnd, vaxis.KeyHome,
+	vaxis.KeyInsert, vaxis.KeyDelete, vaxis.KeyPgUp, vaxis.KeyPgDown, vaxis.KeyF01, vaxis.KeyF02, vaxis.KeyF03, vaxis.KeyF04, vaxis.KeyF05,
+	vaxis.KeyF06, vaxis.KeyF07, vaxis.KeyF08, vaxis.KeyF09, vaxis.KeyF10, vaxis.KeyF11, vaxis.KeyF12, vaxis.KeyF13, vaxis.KeyF14, vaxis.KeyF15,
+	vaxis.KeyF16, vaxis.KeyF17, vaxis.KeyF18, vaxis.KeyF19, vaxis.KeyF20}
+
+func keysOf(t []pair, k rune) []rune {
+	var out []rune
+	for _, p := range t {
+		if p.b == k {
+			out = append(out, p.a)
+		}
+	}
+	return out
+}
+
+func isLowerASCII(c rune) bool { return c >= 'a' && c <= 'z' }
+
+func legacyEncs(k rune, m int) []ansi.Sequence {
+	csi := func(fin rune, ps ...[]int) ansi.Sequence {
+		var params [][]int
+		for _, p := range ps {
+			params = append(params, p)
+		}
+		return ansi.CSI{Parameters: params, Final: fin}
+	}
+	switch {
+	case k >= 32 && k <= 126:
+		nonUpper := !(k >= 'A' && k <= 'Z')
+		switch {
+		case m == 0 && nonUpper:
+			return []ansi.Sequence{ansi.Print{Grapheme: string(k), Width: 1}}
+		case m == 1 && isLowerASCII(k):
+			return []ansi.Sequence{ansi.Print{Grapheme: string(k - 32), Width: 1}}
+		case m == 2 && k >= 48 && !(k >= 65 && k <= 95):
+			return []ansi.Sequence{ansi.ESC{Final: k}}
+		case m == 3 && isLowerASCII(k) && k != 'o' && k != 'p' && k != 'x':
+			return []ansi.Sequence{ansi.ESC{Final: k - 32}}
+		case m == 4 && (isLowerASCII(k) && k != 'h' && k != 'i' && k != 'm'):
+			return []ansi.Sequence{ansi.C0(k - 96)}
+		case m == 4 && (k == 92 || k == 93):
+			return []ansi.Sequence{ansi.C0(k - 64)}
+		}
+		return nil
+	case k == vaxis.KeyTab:
+		if m == 0 {
+			return []ansi.Sequence{ansi.C0(9)}
+		} else if m == 1 {
+			return []ansi.Sequence{csi('Z'), csi('Z', []int{1}, []int{2})}
+		}
+		return nil
+	case k == vaxis.KeyEnter:
+		if m == 0 {
+			return []ansi.Sequence{ansi.C0(13)}
+		}
+		return nil
+	case k == vaxis.KeyEsc:
+		if m == 0 {
+			return []ansi.Sequence{ansi.C0(27)}
+		}
+		return nil
+	case k == vaxis.KeyBackspace:
+		if m == 0 {
+			return []ansi.Sequence{ansi.Print{Grapheme: "\x7f"}, ansi.C0(8)}
+		} else if m == 2 {
+			return []ansi.Sequence{ansi.ESC{Final: 127}}
+		}
+		return nil
+	}
+	var out []ansi.Sequence
+	for _, fin := range keysOf(letterSpec, k) {
+		if m == 0 {
+			out = append(out, csi(fin))
+			for _, f2 := range keysOf(ss3Spec, k) {
+				if f2 == fin {
+					out = append(out, ansi.SS3(fin))
+				}
+			}
+		} else {
+			out = append(out, csi(fin, []int{1}, []int{m + 1}))
+		}
+	}
+	for _, n := range keysOf(tildeSpec, k) {
+		if m == 0 {
+			out = append(out, csi('~', []int{int(n)}))
+		} else {
+			out = append(out, csi('~', []int{int(n)}, []int{m + 1}))
+		}
+	}
+	return out
+}
+
+type kittyVariant struct {
+	seq   ansi.Sequence
+	noAlt bool // no shifted alternate code in the report
+}
+
+func kittySeq(n int, fin rune, alts []int, m, l int, ev bool, tx []int, hasTx bool) []ansi.Sequence {
+	mk := func(ps ...[]int) ansi.Sequence {
+		var params [][]int
+		for _, p := range ps {
+			params = append(params, append([]int(nil), p...))
+		}
+		return ansi.CSI{Parameters: params, Final: fin}
+	}
+	p0 := append([]int{n}, alts...)
+	p1 := []int{m + l + 1}
+	if ev {
+		p1 = append(p1, 1)
+	}
+	if hasTx {
+		return []ansi.Sequence{mk(p0, p1, tx)}
+	}
+	if m+l == 0 && !ev {
+		out := []ansi.Sequence{mk(p0, p1), mk(p0)}
+		if n == 1 && fin != 'u' && fin != '~' && len(alts) == 0 {
+			out = append(out, mk())
+		}
+		return out
+	}
+	return []ansi.Sequence{mk(p0, p1)}
+}
+
+func kittyEncs(k rune, m int) []kittyVariant {
+	var out []kittyVariant
+	if k >= 32 && k <= 126 {
+		shifted := isLowerASCII(k) && m&1 != 0
+		altss := [][]int{{}, {0, int(k)}}
+		if shifted {
+			altss = append(altss, []int{int(k) - 32}, []int{int(k) - 32, int(k)})
+		}
+		type txo struct {
+			tx  []int
+			has bool
+		}
+		txs := []txo{{nil, false}}
+		if m == 0 {
+			txs = append(txs, txo{[]int{int(k)}, true})
+		} else if m == 1 && isLowerASCII(k) {
+			txs = append(txs, txo{[]int{int(k) - 32}, true})
+		}
+		for _, alts := range altss {
+			for _, tx := range txs {
+				for _, l := range []int{0, 128} {
+					for _, ev := range []bool{false, true} {
+						for _, s := range kittySeq(int(k), 'u', alts, m, l, ev, tx.tx, tx.has) {
+							out = append(out, kittyVariant{s, len(alts) == 0 || alts[0] == 0})
+						}
+					}
+				}
+			}
+		}
+		return out
+	}
+	type nf struct {
+		n   int
+		fin rune
+	}
+	var forms []nf
+	if k == vaxis.KeyTab || k == vaxis.KeyEnter || k == vaxis.KeyEsc || k == vaxis.KeyBackspace {
+		forms = []nf{{int(k), 'u'}}
+	} else {
+		for _, fin := range keysOf(letterSpec, k) {
+			forms = append(forms, nf{1, fin})
+		}
+		for _, n := range keysOf(tildeSpec, k) {
+			forms = append(forms, nf{int(n), '~'})
+		}
+		for _, n := range keysOf(kittyF, k) {
+			forms = append(forms, nf{int(n), 'u'})
+		}
+	}
+	for _, f := range forms {
+		for _, l := range []int{0, 64, 128, 192} {
+			for _, ev := range []bool{false, true} {
+				for _, s := range kittySeq(f.n, f.fin, nil, m, l, ev, nil, false) {
+					out = append(out, kittyVariant{s, true})
+				}
+			}
+		}
+	}
+	return out
+}
+
+func cloneSeq(s ansi.Sequence) ansi.Sequence {
+	if c, ok := s.(ansi.CSI); ok {
+		var params [][]int
+		for _, p := range c.Parameters {
+			params = append(params, append([]int(nil), p...))
+		}
+		c.Parameters = params
+		return c
+	}
+	return s
+}
+
+func (h *harness) addCross(k rune, m int, sl ansi.Sequence, sk kittyVariant, tags ...string) {
+	kl := vaxis.VerifDecodeKey(cloneSeq(sl))
+	kk := vaxis.VerifDecodeKey(cloneSeq(sk.seq))
+	strl, strk := kl.String(), kk.String()
+	// bindings: the runes of both events and their case variants, a few others; masks around the chord's
+	rs := []rune{k, unicode.ToUpper(k), kl.Keycode, kl.ShiftedCode, kk.Keycode, kk.ShiftedCode, kk.BaseLayoutCode,
+		rune(0x20 + h.pick(0x5F)), h.names[h.pick(len(h.names))].Key, 0}
+	ms := []int{m, m ^ 1, m | 1, m &^ 1, 0, m | 64, m | 128, h.pick(256)}
+	var bts []string
+	var bjs []interface{}
+	differ := strl != strk
+	for _, r := range rs {
+		if r >= 128 && r <= unicode.MaxRune {
+			continue
+		}
+		for _, bm := range ms {
+			if h.pick(3) == 0 && bm != m {
+				continue
+			}
+			ol := kl.Matches(r, vaxis.ModifierMask(bm))
+			ok := kk.Matches(r, vaxis.ModifierMask(bm))
+			bts = append(bts, hx.Tuple(hx.Z(int64(r)), hx.Z(int64(bm)), hx.Bool(ol), hx.Bool(ok)))
+			if ol != ok && r != 0 {
+				differ = true
+				bjs = append(bjs, map[string]interface{}{"binding_rune": r, "binding_mods": bm, "legacy_matches": ol, "kitty_matches": ok})
+			}
+		}
+	}
+	js := map[string]interface{}{"chord_key": k, "chord_mods": m, "legacy": seqJSON(sl), "kitty": seqJSON(sk.seq),
+		"legacy_string": strl, "kitty_string": strk, "legacy_key": keyJSON(kl), "kitty_key": keyJSON(kk), "differing_bindings": bjs}
+	if k >= 32 && k <= 126 && m == 3 {
+		js["class"] = "esc-upper"
+	} else if k >= 32 && k <= 126 && m&1 != 0 && sk.noAlt {
+		js["class"] = "kitty-shift-without-alternate"
+	}
+	h.cross.Add(hx.Tuple(fmt.Sprintf("(mkChord %d %d)", k, m), seqTerm(sl), seqTerm(sk.seq), hx.Runes(strl), hx.Runes(strk), hx.List(bts)),
+		js, differ || m != 0, tags...)
+}
+
+func (h *harness) genCross() {
+	th := h.cfg.Thorough()
+	type chord struct {
+		k rune
+		m int
+	}
+	var chords []chord
+	for k := rune(32); k <= 126; k++ {
+		for m := 0; m <= 4; m++ {
+			chords = append(chords, chord{k, m})
+		}
+	}
+	chords = append(chords, chord{vaxis.KeyTab, 0}, chord{vaxis.KeyTab, 1}, chord{vaxis.KeyEnter, 0}, chord{vaxis.KeyEsc, 0},
+		chord{vaxis.KeyBackspace, 0}, chord{vaxis.KeyBackspace, 2})
+	for _, k := range namedChordKeys {
+		for m := 0; m < 64; m++ {
+			chords = append(chords, chord{k, m})
+		}
+	}
+	for _, c := range chords {
+		ls := legacyEncs(c.k, c.m)
+		if len(ls) == 0 {
+			continue
+		}
+		ks := kittyEncs(c.k, c.m)
+		named := c.k > unicode.MaxRune
+		for _, sl := range ls {
+			if th {
+				for _, sk := range ks {
+					h.addCross(c.k, c.m, sl, sk, "all-pairs")
+				}
+				continue
+			}
+			// quick: every chord with a few of its kitty variants
+			n := 3
+			if named {
+				n = 1
+				if c.m > 8 && h.pick(4) != 0 {
+					continue
+				}
+			}
+			for i := 0; i < n; i++ {
+				h.addCross(c.k, c.m, sl, ks[h.pick(len(ks))], "sampled-pairs")
+			}
+		}
+	}
+}
+
+// ---------- pipeline stream: bytes -> fake console -> real Vaxis -> Events() ----------
+
+func (h *harness) genPipeline() []hx.DirectViolation {
+	var direct []hx.DirectViolation
+	fc := hx.NewFakeConsole(hx.ProfileFromMask(1<<5, 24, 80))
+	vx, err := vaxis.New(vaxis.Options{WithConsole: fc, NoSignals: true})
+	if err != nil {
+		panic(err)
+	}
+	// drain start-up events
+	drain := func(d time.Duration) {
+		for {
+			select {
+			case <-vx.Events():
+			case <-time.After(d):
+				return
+			}
+		}
+	}
+	drain(50 * time.Millisecond)
+	paste := false
+	send := func(b string, tags ...string) {
+		// what the parser makes of these bytes
+		p := ansi.NewParser(strings.NewReader(b))
+		var seq ansi.Sequence
+		select {
+		case seq = <-p.Next():
+		case <-time.After(time.Second):
+			return
+		}
+		if _, eof := seq.(ansi.EOF); eof || seq == nil {
+			return
+		}
+		// copy before the parser recycles the sequence
+		st, sj := seqTerm(seq), seqJSON(seq)
+		var rs []rune
+		if pr, ok := seq.(ansi.Print); ok {
+			rs = append(rs, []rune(pr.Grapheme)...)
+		}
+		if c, ok := seq.(ansi.CSI); ok {
+			for _, pm := range c.Parameters {
+				for _, x := range pm {
+					rs = append(rs, rune(x))
+				}
+			}
+		}
+		p.Finish(seq)
+		fc.InjectString(b)
+		var k vaxis.Key
+		got := false
+		deadline := time.After(2 * time.Second)
+	wait:
+		for {
+			select {
+			case ev := <-vx.Events():
+				if kk, ok := ev.(vaxis.Key); ok {
+					k, got = kk, true
+					break wait
+				}
+			case <-deadline:
+				break wait
+			}
+		}
+		if !got {
+			direct = append(direct, hx.DirectViolation{Class: "pipeline-no-key-event", Case: map[string]interface{}{"bytes": b, "sequence": sj},
+				What: "no Key event was delivered for a key encoding"})
+			return
+		}
+		rs = append(rs, keyRunes(k)...)
+		h.pipe.Add(hx.Tuple(utab(rs...), st, hx.Bool(paste), keyTerm(k)),
+			map[string]interface{}{"bytes": b, "sequence": sj, "paste": paste, "key": keyJSON(k), "string": k.String()}, len(b) > 1, tags...)
+	}
+	for r := rune(0x20); r <= 0x7F; r++ {
+		send(string(r), "legacy-byte")
+	}
+	for _, r := range sampleRunes {
+		if utf8.ValidRune(r) && r >= 0xA0 {
+			send(string(r), "utf8")
+		}
+	}
+	for b := 0; b < 32; b++ {
+		if b == 0x1b {
+			continue
+		}
+		send(string(rune(b)), "c0")
+	}
+	send("\x1b", "lone-esc")
+	for r := rune(0x30); r <= 0x7F; r++ {
+		if r >= 'N' && r <= '_' && (r == 'O' || r == 'P' || r == 'X' || r >= '[') {
+			continue
+		}
+		send("\x1b"+string(r), "esc")
+	}
+	for _, r := range "ABCDFHPQRS" {
+		send("\x1bO"+string(r), "ss3")
+	}
+	okFinal := func(f rune) bool { return !strings.ContainsRune("cIOMmtyn", f) }
+	count := 0
+	for _, sk := range h.special {
+		for _, m := range []int{0, 2, 5, 1 + h.pick(256)} {
+			x := shape{n: int(sk.Code), fin: sk.Final, m: m, n1: 1}
+			if m == 0 {
+				x.n1 = 0
+			}
+			if x.fin == '~' && (x.n == 200 || x.n == 201) || !okFinal(x.fin) {
+				continue
+			}
+			send(x.bytes(false), "csi-special")
+			count++
+		}
+	}
+	for c := 0x20; c < 0x7F; c++ {
+		up := int(unicode.ToUpper(rune(c)))
+		for i := 0; i < 3; i++ {
+			x := shape{n: c, fin: 'u', n0: h.pick(3), n1: h.pick(3), s: up, b: c, m: 1 + h.pick(256), e: h.pick(4)}
+			if h.pick(3) == 0 {
+				x.s = 0
+			}
+			if h.pick(2) == 0 {
+				x.hasTx, x.tx = true, []int{c}
+			}
+			send(x.bytes(h.pick(2) == 0), "csi-u")
+		}
+	}
+	send("\x1b[1;5Z", "backtab")
+	send("\x1b[Z", "backtab")
+	send("\x1b[27;6;9~", "other-keys")
+	send("\x1b[97;5:u", "empty-event")
+	send("\x1b[97;;97u", "empty-mods")
+	send("\x1b[97::98u", "empty-shifted")
+	// bracketed paste: the keys in between are marked as paste events
+	fc.InjectString("\x1b[200~")
+	drain(20 * time.Millisecond)
+	paste = true
+	for _, b := range []string{"a", "B", "\r", "\t", "é", "\x1b[A", "\x1b[97;5u", "\x1bx", "\x1bOP"} {
+		send(b, "paste")
+	}
+	fc.InjectString("\x1b[201~")
+	drain(20 * time.Millisecond)
+	paste = false
+	send("z", "after-paste")
+	if !hx.WithTimeout(3*time.Second, vx.Close) {
+		direct = append(direct, hx.DirectViolation{Class: "pipeline-close-hang", Case: "close", What: "Close did not return"})
+	}
+	return direct
+}
+
 func main() {
 	os.Unsetenv("COLORTERM")
 	cfg := hx.ParseFlags()
@@ -844,10 +1294,12 @@ func main() {
 		match:   hx.NewStream("match", "model.Keys", "match_case", "c09_match_mismatches", "c09_match_violations"),
 		str:     hx.NewStream("string", "model.Keys", "string_case", "c09_string_mismatches", "c09_string_violations"),
 		mstring: hx.NewStream("mstring", "model.Keys", "mstring_case", "c09_mstring_mismatches", "c09_mstring_violations"),
+		cross:   hx.NewStream("cross", "model.Keys", "cross_case", "c09_cross_mismatches", "c09_cross_violations"),
+		pipe:    hx.NewStream("pipeline", "model.Keys", "pipeline_case", "c09_pipeline_mismatches", "c09_pipeline_violations"),
 		names:   vaxis.VerifKeyNames(),
 		special: vaxis.VerifSpecialsKeys(),
 	}
-	for _, s := range []*hx.Stream{h.oracle, h.decode, h.match, h.str, h.mstring} {
+	for _, s := range []*hx.Stream{h.oracle, h.decode, h.match, h.str, h.mstring, h.cross, h.pipe} {
 		s.ShardMax = 600
 	}
 	h.oracle.ShardMax = 4000
@@ -856,12 +1308,16 @@ func main() {
 	h.genDecode()
 	h.genMatch()
 	h.genStrings()
-	streams := []*hx.Stream{h.oracle, h.decode, h.match, h.str, h.mstring}
+	h.genCross()
+	direct := h.genPipeline()
+	streams := []*hx.Stream{h.oracle, h.decode, h.match, h.str, h.mstring, h.cross, h.pipe}
 	extra := map[string]interface{}{"harness_seconds": time.Since(t0).Seconds()}
 	cfg.Write("C09", "oracle: Go's unicode tables on ASCII, out-of-range runes, every lower-case rune (stride in quick); "+
 		"decode: decodeKey on legacy bytes, C0, ESC, SS3, every specialsKeys entry x modifier parameters x event types, CSI u with every layout of the optional fields, other scripts, xterm modifyOtherKeys, random and malformed parameter lists; "+
 		"match: Key.Matches of decoded and synthetic events against related/random bindings, each evaluated twice with lock bits toggled; "+
-		"string: Key.String and MatchString of it; mstring: MatchString on printed and malformed binding strings. "+
-		"non-trivial = decode: a special-key, modifier, event, alternate-code or text path is taken; match: the call returned true; string: more than one character; mstring: the call returned true; oracle: the rune has a class or a case mapping",
-		streams, extra, nil)
+		"string: Key.String and MatchString of it; mstring: MatchString on printed and malformed binding strings; "+
+		"cross: every both-expressible chord, each legacy encoding against kitty encodings (all pairs in thorough), String() of both and Matches of both against bindings around the chord; "+
+		"pipeline: encodings written byte-wise to the fake console of a real Vaxis, Key events read from Events(), including a bracketed paste. "+
+		"non-trivial = decode: a special-key, modifier, event, alternate-code or text path is taken; match: the call returned true; string: more than one character; mstring: the call returned true; oracle: the rune has a class or a case mapping; cross: the chord has modifiers or the two protocols differ; pipeline: more than one byte",
+		streams, extra, direct)
 }
